@@ -21,6 +21,14 @@ structure Params where
   radix : Nat
   deriving Repr, DecidableEq
 
+/-- Side conditions under which the format is sound; the production constants
+satisfy them (re-checked from `Woodpile.Gen` on every run). -/
+def Params.Valid (p : Params) : Prop :=
+  1 ≤ p.maxInit ∧ p.maxInit < p.radix ∧ 1 ≤ p.maxSub ∧ p.maxSub < p.radix * p.radix ∧
+  2 ≤ p.radix ∧ p.radix ≤ 253
+
+instance (p : Params) : Decidable p.Valid := by unfold Params.Valid; infer_instance
+
 def FE : UInt8 := 0xFE
 def FD : UInt8 := 0xFD
 
